@@ -1,7 +1,10 @@
-(* C03 — Stored expressions render back to equivalent Python code.  Property theorems only. *)
+(* C03 — Stored expressions render back to equivalent Python code.  Property theorems only.
+   fx ranges over the combinations of the rendering repairs (Model/C03_ops.v: fixes); fx_none is the printer before any of
+   them, fx_all the printer with all of them, tree_fixes (Gen/C03_tables.v) what the translator found in the tree under test.
+   env is the table of names the module's import statements bind. *)
 From Coq Require Import List ZArith String Ascii Bool Arith.
-From Verif Require Import Lib.Sexp Model.C03_ops Gen.C03_tables Model.C03_expr Model.C03_spec
-  Proofs.C03_ind Proofs.C03_iter Proofs.C03_rule Proofs.C03_render Proofs.C03_names Proofs.C03_expr.
+From Verif Require Import Lib.Sexp Model.C03_ops Gen.C03_tables Model.C03_expr Model.C03_spec Model.C03_run
+  Proofs.C03_ind Proofs.C03_iter Proofs.C03_rule Proofs.C03_render Proofs.C03_names Proofs.C03_expr Proofs.C03_repaired.
 Import ListNotations.
 Open Scope string_scope. Open Scope list_scope. Open Scope nat_scope.
 
@@ -14,57 +17,109 @@ Theorem C03_tables_match_grammar :
 Proof. exact (conj unop_table (conj binop_table (conj boolop_table (conj cmpop_table node_table)))). Qed.
 Print Assumptions C03_tables_match_grammar.
 
+(* (T) every entry of _binary_op_precedence read from expressions.py is the level the model compares with, and when the tree
+   has the precedence machinery the table gives every binary operator of the grammar its grammar level *)
+Theorem C03_precedence_table_matches_grammar :
+  forallb (fun p => Nat.eqb (gbinop_prec (fst p)) (snd p)) gen_binop_prec = true /\
+  (fx_prec tree_fixes = true ->
+   forallb (fun o => existsb (fun p => String.eqb (fst p) (spec_binop o) && Nat.eqb (snd p) (binop_prec o)) gen_binop_prec) all_binops = true).
+Proof. exact (conj prec_table_sound prec_table_complete). Qed.
+Print Assumptions C03_precedence_table_matches_grammar.
+
 (* str(expr) is the concatenation of the flat pieces (definition of Expr.__str__), flat iteration is the recursive
-   expansion of one-layer iteration, and its pieces are plain strings and names only *)
-Theorem C03_str_is_concat_of_flat : forall g,
-  render g = sconcat (map item_text (iterate true g)) /\
-  iterate true g = flatten (iterate false g) /\
-  Forall is_piece (iterate true g).
-Proof. intros g. exact (conj eq_refl (conj (iterate_flat_is_expansion g) (flat_items_are_pieces g))). Qed.
+   expansion of one-layer iteration (parentheses included), and its pieces are plain strings and names only *)
+Theorem C03_str_is_concat_of_flat : forall fx g,
+  render fx g = sconcat (map item_text (iterate fx true g)) /\
+  iterate fx true g = flatten fx (iterate fx false g) /\
+  Forall is_piece (iterate fx true g).
+Proof. intros fx g. exact (conj eq_refl (conj (iterate_flat_is_expansion fx g) (flat_items_are_pieces fx g))). Qed.
 Print Assumptions C03_str_is_concat_of_flat.
 
 (* building with string parsing in mode m = building, with parsing off, the tree in which exactly the strings selected by
-   [subst] (flag on, not under a Literal[...] slice, not literal text of an f-string, not in a subscripted value, not in a
-   lambda default, not inside an already parsed string, content parses) are replaced by their parsed code *)
-Theorem C03_string_annotation_rule : forall e c,
-  no_parsed e = true -> build c e = build (npc c) (subst (pm c) (injoin c) (infmt c) e).
+   [subst] (flag on, not under a slice of a name chain that the module's imports resolve to typing.Literal /
+   typing_extensions.Literal (sticky), not literal text of an f-string, not in a subscripted value, not in a lambda default,
+   not inside an already parsed string, content parses) are replaced by their parsed code.  Without the repair of F14 the
+   source must not subscript a chain with a non-name root that spells typing.Literal (rule_ok) *)
+Theorem C03_string_annotation_rule : forall fx env e c,
+  rule_ok (fx_litroot fx) e = true -> build fx env c e = build fx env (npc c) (subst fx env (pm c) (injoin c) (infmt c) e).
 Proof. exact string_annotation_rule. Qed.
 Print Assumptions C03_string_annotation_rule.
 
+(* ... with that repair the hypothesis is only "a source tree" (no PParsed), and without it the statement is false *)
+Theorem C03_string_annotation_rule_repaired : forall fx env e c,
+  fx_litroot fx = true -> no_parsed e = true -> build fx env c e = build fx env (npc c) (subst fx env (pm c) (injoin c) (infmt c) e).
+Proof. intros fx env e c Hf Hn. apply string_annotation_rule. rewrite Hf. exact Hn. Qed.
+Print Assumptions C03_string_annotation_rule_repaired.
+Theorem C03_string_annotation_rule_refuted_F14 :
+  no_parsed w_F14 = true /\ rule_ok false w_F14 = false /\
+  build fx_none [] pctx w_F14 <> build fx_none [] ctx0 (subst fx_none [] (Parse false) false false w_F14) /\
+  build fx_all [] pctx w_F14 = build fx_all [] ctx0 (subst fx_all [] (Parse false) false false w_F14).
+Proof. exact rule_refuted_F14. Qed.
+Print Assumptions C03_string_annotation_rule_refuted_F14.
+
 (* with the flag off nothing is parsed (postponed evaluation in effect: every string stays a string) *)
-Theorem C03_strings_untouched_when_off : forall e j f, subst NoParse j f e = e.
+Theorem C03_strings_untouched_when_off : forall fx env e j f, subst fx env NoParse j f e = e.
 Proof. exact subst_noparse_id. Qed.
 Print Assumptions C03_strings_untouched_when_off.
 
+(* what _build_subscript tests: the canonical path of the built left part is, for a chain of names, the resolution of its
+   root through the module's imports followed by the attribute names (and a chain with another root forgets that root) *)
+Theorem C03_canonical_path_of_chain : forall fx env v c g,
+  pm c = NoParse -> rule_ok (fx_litroot fx) v = true -> build fx env c v = Some g ->
+  match src_canon env v with
+  | Some p => gcanon env g = Some p /\ chain_shape g
+  | None => pure_chain g = false /\ (is_name_or_attr_src v = true -> gcanon env g = quirk_canon v)
+  end.
+Proof. intros fx env v c g. exact (canon_of_build fx env v c g). Qed.
+Print Assumptions C03_canonical_path_of_chain.
+
 (* _build never raises on a well-formed tree without await, whatever the flags *)
-Theorem C03_build_total : forall e c,
-  pm c = NoParse -> wf e = true -> has_await e = false -> exists g, build c e = Some g.
+Theorem C03_build_total : forall fx env e c,
+  pm c = NoParse -> wf e = true -> has_await fx e = false -> exists g, build fx env c e = Some g.
 Proof. exact build_total. Qed.
 Print Assumptions C03_build_total.
 
 (* every Name id and attribute name of the tree is a name piece, in textual order, unless a sub-expression is dropped
-   (format spec, await) *)
-Theorem C03_names_all_present_modulo_known : forall e c g,
-  pm c = NoParse -> wf e = true -> drops e = false -> build c e = Some g ->
-  item_names (iterate true g) = src_names e.
+   (await; a format spec when the tree does not store it) *)
+Theorem C03_names_all_present_modulo_known : forall fx env e c g,
+  pm c = NoParse -> wf e = true -> drops fx e = false -> build fx env c e = Some g ->
+  item_names (iterate fx true g) = src_names e.
 Proof. exact names_all_present. Qed.
 Print Assumptions C03_names_all_present_modulo_known.
 
 (* a dotted chain r.x1...xn is stored as one ExprAttribute whose i-th name has the (i-1)-th as parent, so that
-   ExprName.path of the i-th name is the dotted prefix r.x1...xi (what name resolution follows) *)
-Theorem C03_dotted_chain_parent_links : forall cx r x attrs,
-  build cx (chain_expr (PName r) (x :: attrs)) = Some (GAttribute (GName r ParScope :: chain_names r (x :: attrs))).
+   ExprName.path of the i-th name is the dotted prefix r.x1...xi, and its canonical path is the resolution of r followed by
+   x1...xn (what name resolution follows) *)
+Theorem C03_dotted_chain_parent_links : forall fx env cx r x attrs,
+  build fx env cx (chain_expr (PName r) (x :: attrs)) = Some (GAttribute (GName r ParScope :: chain_names r (x :: attrs))).
 Proof. exact dotted_chain_parent_links. Qed.
 Print Assumptions C03_dotted_chain_parent_links.
+Theorem C03_dotted_chain_canonical_path : forall fx env cx r x attrs g,
+  pm cx = NoParse -> build fx env cx (chain_expr (PName r) (x :: attrs)) = Some g ->
+  gcanon env g = Some (fold_left (fun p a => (p ++ "." ++ a)%string) (x :: attrs) (resolve env r)).
+Proof. exact dotted_chain_canonical. Qed.
+Print Assumptions C03_dotted_chain_canonical_path.
 
-(* the statement without gap hypothesis is false of the faithful model: one witness per known finding
-   (each is replayed on the implementation on every run) *)
-Theorem C03_render_refuted : exists e, wf e = true /\ ~ render_claim P_TEST e.
+(* what is stored for an expression depends on nothing that was built before it (the model is a function; the correspondence
+   check ties the implementation to it on sequences of builds in one process) *)
+Theorem C03_build_history_independent : forall fx pre env cx e post,
+  nth (List.length pre) (build_seq fx (pre ++ (env, cx, e) :: post)) None = build fx env cx e.
+Proof. exact build_seq_independent. Qed.
+Print Assumptions C03_build_history_independent.
+
+(* Expr.modernize() changes nothing in this version *)
+Theorem C03_modernize_is_identity : forall fx g, render fx (modernize g) = render fx g.
+Proof. exact modernize_id. Qed.
+Print Assumptions C03_modernize_is_identity.
+
+(* the statement without gap hypothesis is false of the faithful model of the printer without repairs: one witness per
+   known finding (each is replayed on the implementation on every run) *)
+Theorem C03_render_refuted : exists e, wf e = true /\ ~ render_claim fx_none P_TEST e.
 Proof. exact render_claim_refuted. Qed.
 Print Assumptions C03_render_refuted.
 Theorem C03_render_refuted_F1 : refutes G_GROUP w_F1. Proof. exact refuted_F1. Qed.
 Print Assumptions C03_render_refuted_F1.
-Theorem C03_render_refuted_F3 : refutes G_FSTRING w_F3. Proof. exact refuted_F3. Qed.
+Theorem C03_render_refuted_F3 : refutes G_FSTRING w_F3 /\ refutes G_FSTRING w_F3b. Proof. exact (conj refuted_F3 refuted_F3b). Qed.
 Print Assumptions C03_render_refuted_F3.
 Theorem C03_render_refuted_F4 : refutes G_LAMBDA w_F4 /\ refutes G_LAMBDA w_F4b. Proof. exact (conj refuted_F4 refuted_F4b). Qed.
 Print Assumptions C03_render_refuted_F4.
@@ -79,18 +134,34 @@ Print Assumptions C03_render_refuted_F9.
 Theorem C03_render_refuted_F10 : refutes G_AWAIT w_F10. Proof. exact refuted_F10. Qed.
 Print Assumptions C03_render_refuted_F10.
 
-(* the strongest true statement: outside the eight decidable gap families that remain after the repairs (F2, F5, F11, F12 fixed), for every well-formed tree of any depth and
-   width and every storing position (top = minimal precedence of the position), str(build e) is, character for
-   character, the text of the precedence-aware reference printer *)
-Theorem C03_render_eq_reference_modulo_known : forall top e,
-  wf e = true -> known_gap top e = false ->
-  exists g, build ctx0 e = Some g /\ render g = ref_top top e.
+(* the strongest true statement, for every combination of repairs: outside the decidable gap families that the repairs
+   present leave, for every well-formed tree of any depth and width and every storing position (top = minimal precedence of
+   the position), str(build e) is, character for character, the text of the precedence-aware reference printer *)
+Theorem C03_render_eq_reference_modulo_known : forall fx env top e,
+  wf e = true -> known_gap fx top e = false ->
+  exists g, build fx env ctx0 e = Some g /\ render fx g = ref_top top e.
 Proof. exact render_eq_reference_modulo_known. Qed.
 Print Assumptions C03_render_eq_reference_modulo_known.
 
 (* the same with string annotations parsed (mode m): the text is the reference text of the substituted tree *)
-Theorem C03_render_eq_reference_with_strings : forall top m e,
-  no_parsed e = true -> wf (subst m false false e) = true -> known_gap top (subst m false false e) = false ->
-  exists g, build (mkCtx m false false false) e = Some g /\ render g = ref_top top (subst m false false e).
+Theorem C03_render_eq_reference_with_strings : forall fx env top m e,
+  rule_ok (fx_litroot fx) e = true -> wf (subst fx env m false false e) = true ->
+  known_gap fx top (subst fx env m false false e) = false ->
+  exists g, build fx env (mkCtx m false false false) e = Some g /\ render fx g = ref_top top (subst fx env m false false e).
 Proof. exact render_eq_reference_with_strings. Qed.
 Print Assumptions C03_render_eq_reference_with_strings.
+
+(* the printer with every repair: NO grouping, f-string, lambda, generator, empty-tuple, yield-operand or integer-attribute
+   hypothesis.  For every well-formed tree whose f-strings are made of literal text and replacement fields (every tree the
+   parser produces), without await (no builder), not a bare yield in a position that needs an expression *)
+Theorem C03_render_eq_reference_repaired : forall env top e,
+  wf e = true -> fshape e = true -> has_await fx_all e = false -> (prec e <? top) = false ->
+  exists g, build fx_all env ctx0 e = Some g /\ render fx_all g = ref_top top e.
+Proof. exact render_eq_reference_repaired. Qed.
+Print Assumptions C03_render_eq_reference_repaired.
+Theorem C03_render_eq_reference_repaired_with_strings : forall env top m e,
+  no_parsed e = true -> wf (subst fx_all env m false false e) = true -> fshape (subst fx_all env m false false e) = true ->
+  has_await fx_all (subst fx_all env m false false e) = false -> (prec (subst fx_all env m false false e) <? top) = false ->
+  exists g, build fx_all env (mkCtx m false false false) e = Some g /\ render fx_all g = ref_top top (subst fx_all env m false false e).
+Proof. exact render_eq_reference_repaired_with_strings. Qed.
+Print Assumptions C03_render_eq_reference_repaired_with_strings.
